@@ -673,6 +673,37 @@ CLASSES["VNcKid"] = VNcKid
 
 
 @dataclass(frozen=True)
+class VColl(VBase):
+    """A node class that is structurally a collections.abc.Collection (sized, iterable, container)
+    over its own items - a block iterable over its statements."""
+
+    items: tuple[VBase, ...] = ()
+    v: int = 0
+
+    def __len__(self) -> int:
+        return len(self.items)
+
+    def __iter__(self):
+        return iter(self.items)
+
+    def __contains__(self, x: object) -> bool:
+        return any(x is c for c in self.items)
+
+
+@dataclass(frozen=True)
+class VHolder(VBase):
+    """Child fields annotated with exactly an iterable / collection-like node class."""
+
+    body: VColl
+    it: "VIter | None" = None
+    many: tuple[VColl, ...] = ()
+    v: int = 0
+
+
+CLASSES["VColl"] = VColl
+
+
+@dataclass(frozen=True)
 class VKids(VBase):
     """Fields named like public attributes of the node base class: a child field called `children`
     (it shadows ASTNode's convenience property of that name; the library's own tests use such a
@@ -685,6 +716,7 @@ class VKids(VBase):
 
 
 CLASSES["VKids"] = VKids
+CLASSES["VHolder"] = VHolder
 _STAMPS = __import__("itertools").count(1)
 
 
